@@ -366,20 +366,16 @@ def c01_6(cx):
     with cx.only("C03"):
         cx.returns_only_if(ci, {"Changed"}, BoolIs(r"^\$1$", True))
     cx.returns_only_if(ci, {"Unchanged"}, BoolIs(r"^\$1$", False))
-    for path, stored in ((r"^<input::input_field::FieldIngredientImpl<C> as ingredient::Ingredient>::maybe_changed_after$", r"\.revisions\[\$1\.field_index\]$"),
-                         (r"^<tracked_struct::tracked_field::FieldIngredientImpl<C> as ingredient::Ingredient>::maybe_changed_after$", r"load\(.*\.revisions\[\$1\.field_index\]\)$")):
+    for path, stored in ((r"^<input::input_field::FieldIngredientImpl<C> as ingredient::Ingredient>::maybe_changed_after$", r"^input::IngredientImpl::<C>::data\(\$2, \$4\)\.revisions\[\$1\.field_index\]$"),
+                         (r"^<tracked_struct::tracked_field::FieldIngredientImpl<C> as ingredient::Ingredient>::maybe_changed_after$", r"^revision::AtomicRevision::load\(tracked_struct::IngredientImpl::<C>::data_raw\(zalsa::Zalsa::table\(\$2\), \$4\)\.revisions\[\$1\.field_index\]\)$")):
         b = cx.fn(path)
-        c = cx.one_call(b, r"VerifyResult::changed_if$", "changed_if call")
-        eng = OnlyIf(cx.facts, b)
-        gt = Cmp(stored, ">", r"^\$5$", desc="stored revision > revision")
-        le = Cmp(stored, "<=", r"^\$5$", desc="stored revision <= revision")
-        op = c.node()["args"][0]
+        # the literals name the slot of the requested id ($4) and this ingredient's own field index: a
+        # comparison against any other stamp does not establish them
+        gt = Cmp(stored, ">", r"^\$5$", desc="stored revision of (id, field) > revision")
+        le = Cmp(stored, "<=", r"^\$5$", desc="stored revision of (id, field) <= revision")
         with cx.only("C03"):
-            cx.check(eng.implies_op(op, ("bool", True), gt, c), "Changed only if stored revision > revision (precision)", c, {"origin": b.origin_op(op)}, key="changed=>gt")
-        cx.check(eng.implies_op(op, ("bool", False), le, c), "Unchanged only if stored revision <= revision (soundness)", c, {"origin": b.origin_op(op)}, key="unchanged=>le")
-        cx.flow(b, b.origin_local(0), [r"^function::maybe_changed_after::VerifyResult::changed_if\("], [], "result is changed_if(..)", c)
-        # the value looked at belongs to the requested id
-        cx.flow(b, b.origin_op(op), [r"\(\$2\)?.*\$4"], [], "the stored revision is read from the slot of the requested id", c)
+            cx.returns_only_if(b, {"Changed"}, gt, "Changed only if the field's stored revision > revision (precision)")
+        cx.returns_only_if(b, {"Unchanged"}, le, "Unchanged only if the field's stored revision <= revision (soundness)")
     b = cx.fn(r"^<interned::IngredientImpl<C> as ingredient::Ingredient>::maybe_changed_after$")
     gen_gt = Cmp(r"id::Id::generation\(.*metadata.*\.id\)$", ">", r"^id::Id::generation\(\$4\)$", desc="slot generation > requested generation")
     gen_le = Cmp(r"id::Id::generation\(.*metadata.*\.id\)$", "<=", r"^id::Id::generation\(\$4\)$", desc="slot generation <= requested generation")
